@@ -349,7 +349,9 @@ func (index *PatternIndex) mod(ctx *Context, pairs []piPair, id string, op piOp)
 		for _, x := range sorted {
 			var xPair piPair
 			xPair.key = k
-			xPair.val = picast(ctx, x)
+			// Not cast here: the value is cast when its pair is
+			// processed (and casting twice turns null into a string).
+			xPair.val = x
 			morePairs = append(morePairs, xPair)
 		}
 		rest = append(morePairs, rest...)
